@@ -110,6 +110,19 @@ let init () =
         v (from_lines_ok l1 l2 && ip_intersection_ok l1 l2 && nearly_colinear_ok l1 l2)
     | _ -> "BAD-ARGS");
   let so = function "1" -> Thickline.SOLeft | "2" -> Thickline.SORight | _ -> Thickline.SONone in
+  let mkstyle w al = { Style.fill_color = Some (z_in "2"); Style.stroke_color = Some (z_in "1"); Style.stroke_width = z_in w;
+                       Style.stroke_alignment = (match al with "0" -> Style.Inside | "1" -> Style.Center | _ -> Style.Outside);
+                       Style.stroke_kind = Style.Solid } in
+  register "ok_rrect_contains" (function
+    | [x; y; w; h; a1; a2; b1; b2; c1; c2; d1; d2; qx; qy] ->
+        v (Overflow2.rrect_contains_ok (rc x y w h) { r_tl = sz a1 a2; r_tr = sz b1 b2; r_br = sz c1 c2; r_bl = sz d1 d2 } (pt qx qy))
+    | _ -> "BAD-ARGS");
+  register "ok_styled_circle" (function
+    | [x; y; d; _; w; al] -> v (Overflow2.styled_circle_new_ok (mkstyle w al) (pt x y) (z_in d))
+    | _ -> "BAD-ARGS");
+  register "ok_styled_ellipse" (function
+    | [x; y; w_; h_; w; al] -> v (Overflow2.styled_ellipse_new_ok (mkstyle w al) (pt x y) (sz w_ h_))
+    | _ -> "BAD-ARGS");
   register "ok_index" (function [k] -> v (point_index_ok (z_in k)) | _ -> "BAD-ARGS");
   register "ok_from_slice" (function [k] -> v (tri_from_slice_ok (z_in k)) | _ -> "BAD-ARGS");
   register "ok_new_const" (function
